@@ -81,7 +81,7 @@ def gen_cfg(rng, template=None):
     cfg = dict(t=t, nx=int(rng.choice([2, 3, 4, 6])), ny=int(rng.choice([2, 3, 4])), dim=2,
                filt=str(rng.choice(["conv", "density", "none"])), radius=float(rng.choice([1.2, 1.6, 2.1])),
                overhang=bool(rng.random() < 0.3), odir=str(rng.choice(["+y", "+x", "y+"])),
-               solver=str(rng.choice(["auto", "auto", "splu", "cg_jacobi", "cg_sor", "cg_ilu", "cg_gmg", "dense_auto", "dense_lu", "dense_ldl"])),
+               solver=str(rng.choice(["auto", "auto", "splu", "cg_jacobi", "cg_sor", "cg_ilu", "cg_gmg", "dense_auto", "dense_auto", "dense_lu", "dense_ldl"])),
                lda=bool(rng.random() < 0.8), dep_tol=float(rng.choice([1e-5, 1e-7, 1e-9])), nload=int(rng.choice([1, 1, 2, 3])),
                print_timing=[False, False, True, 0.0][int(rng.integers(0, 4))], keep_alloc=bool(rng.random() < 0.2),
                nmodes=int(rng.choice([1, 2, 3, 3])), sigma=[None, None, -0.05][int(rng.integers(0, 3))], seedQ=bool(rng.random() < 0.7),
